@@ -213,6 +213,8 @@ def build(spec):
         p.set_initial_condition(d0 == 1)
     elif init == "dist2":
         p.set_initial_condition(d0 <= 4)
+    elif init == "dist100":
+        p.set_initial_condition(d0 <= 100)      # a model that is not normalised: optimum of order 100
     elif init == "fval" and has_values and ref is not None:
         p.set_initial_condition(target(x0) - target(ref) <= 1)
     elif init == "none":
